@@ -6,6 +6,7 @@ import XmppModel.Lemmas.StartTLSName
 import XmppModel.Lemmas.ByteDecoder
 import XmppModel.Lemmas.StartTLSRechunk
 import XmppModel.Model.StartTLSProbe
+import XmppModel.Lemmas.StartTLSNegotiate
 import XmppModel.Generated.C02
 /-!
 # C02 — a client asked to use STARTTLS never proceeds in clear text
@@ -91,6 +92,38 @@ one feature value — no variable captured by the `Negotiate`/`List`/`Parse` clo
 configuration), no package-level variable, no field of an object built with the value -/
 theorem C02_gen_starttls_value_writes_nothing : Generated.C02.startTLSSharedWrites = some [] := by
   decide
+
+/-! ### One `Negotiate` call of the STARTTLS feature, from every state
+
+(`C02_gen_negotiate_table` ties `negotiateOne` to the real function on eleven answers from the
+initial state; these hold for every session state, read-ahead, script and configuration.) -/
+
+/-- **A layer only on `<proceed/>`, and then `Secure` and nothing else.**  If the call returns
+without an error, the request was written, the next unit the peer sent was `<proceed/>`, the mask is
+exactly `Secure` — not `Ready`: a session is never done before the stream has been restarted
+inside the layer — and the new `io.ReadWriter` is a TLS client. -/
+theorem C02_negotiate_layer_only_on_proceed (req : Bool) (res : NegRes) (s s' : Sess) (m : Mask) (rw : Rw)
+    (h : negotiateOne ⟨0, req, startTLS⟩ res s = .ok (m, rw) s') :
+    m = Secure ∧ rw = .tls ∧
+    ∃ s1, write .wStartTLS (chooseConfig s) = .ok () s1 ∧ pull s1 = .ok .proceed s' := by
+  obtain ⟨hm, hr, s1, s2, hw, hp, rfl⟩ := negotiateOne_starttls_ok h
+  exact ⟨hm, hr, s1, hw, hp⟩
+
+/-- **In clear text the call writes the request and nothing else**, whatever the peer answers and
+however the call ends (result or error): the trace grows by the request, written outside any
+layer, and at most one delivery after it. -/
+theorem C02_negotiate_clear_writes_only_request (req : Bool) (res : NegRes) (s : Sess) (ht : s.tls = false) :
+    match negotiateOne ⟨0, req, startTLS⟩ res s with
+    | .ok _ s' | .stop _ s' =>
+      s'.trace = .wStartTLS false :: s.trace ∨
+      ∃ o, s'.trace = .deliver o false :: .wStartTLS false :: s.trace :=
+  negotiateOne_starttls_clear_trace ht
+
+/-- both happen: `<proceed/>` gives (`Secure`, TLS client) after one write; `<failure/>` an error
+after the same write -/
+example : negotiateModel (false, some .proceed) = ([.wStartTLS false], .ok 1 .tls) ∧
+    negotiateModel (true, some .failure) = ([.wStartTLS false], .err .refused) := by
+  decide +kernel
 
 /-! ### What makes a session start `Secure`: the kind of connection -/
 
